@@ -10,6 +10,18 @@ from .. import build, gen, impl, model, report, sexp
 from ..sexp import Q
 
 SHELLS = ['bash', 'fish', 'zsh', 'pwsh']
+
+MANIFEST = dict(
+    text=('Theorem C11_choice (Props/C11.v): for every grammar whose definitions the checker accepts, every shell and every '
+          'reference <X>, the node the Gallina model of specialize_nonterminals leaves in its place means exactly what '
+          'Spec.Choice.spec prescribes (<X@S>, else plain <X>, else built-in for PATH/DIRECTORY, else any word; other shells '
+          'ignored). The model is tied to src/check.rs by running the extracted model and ValidGrammar::from_grammar on the '
+          'same parse trees (exact comparison of validated tree, warning maps, error variant+spans) and the built-in table is '
+          'regenerated from the source on every run; the implementation is additionally judged directly against the extracted '
+          'specification on an exhaustive family (all 32 definition subsets x 3 names x 5 reference positions x 4 shells), '
+          'including the command table handed to the four emitters.'),
+    design='6 C11',
+    technique='Coq theorem (model = spec) + extracted-model/implementation correspondence (exhaustive family) + T3 regenerated constants')
 KINDS = ['plain', 'bash', 'fish', 'zsh', 'pwsh']
 
 
